@@ -61,7 +61,7 @@ class S3TapeCassette(TapeCassette):
             infrequent_access_kb_threshold * 1024 if infrequent_access_kb_threshold else None
         self.sampling_calculator = sampling_calculator
         self._random = Random(110613)
-        self._metadata_key_parser = compile(self.METADATA_KEY)
+        self._metadata_key_parser = compile(self.METADATA_KEY.format(key_prefix=self.key_prefix, id='{id}'))
         self._recording_id_parser = compile(self.RECORDING_ID)
         self._s3_facade = S3BasicFacade(self.bucket, region=region)
 
